@@ -379,7 +379,15 @@ EdgeBases == {b \in 0..65535 : \E t \in 2..8 : CsumEdge((b + t) % 65536, t)}
 C06Csum(b) ==
     [C06Full("tcp", BaseMid, 1, 8) EXCEPT !.id = "C06/csum_edge/" \o ToString(b), !.label = "tcp/header_checksum_carry_edge", !.ipid_base = b]
 C06CsumAll(u) == LET e == SetToSeq(EdgeBases) IN { C06Csum(e[i]) : i \in 1..(IF Len(e) < 6 THEN Len(e) ELSE 6) }
-C06All(u) == C06CsumAll(u) \cup { C06Eager(v, dt) : v \in Variants, dt \in {2, 3, 5} } \cup { C06Full(v, b, r[1], r[2]) : v \in Variants, b \in Bases, r \in {<<1, 255>>, <<200, 255>>, <<1, 30>>} }
+\* one send blocks inside the sink for 220 ms (a full buffer, a slow logger, a descheduled process): the probes after it are still
+\* one delay apart - lost time is not made up for by sending back to back. REAL clock (a blocking write).
+C06Stall(v) ==
+    [variant |-> v, strict |-> FALSE, min |-> 1, max |-> 7, timeout_ms |-> 400, delay_ms |-> 50, realclock |-> TRUE,
+     ipid_base |-> 41821, echo_base |-> 40000, seq_base32 |-> <<4660, 22136>>, isn32 |-> <<4660, 22136>>, sack_perm |-> TRUE, sack_ts |-> FALSE,
+     id |-> "C06/stall/" \o v, label |-> v \o "/pacing_after_a_blocked_send",
+     write_stall_us |-> [x \in {"3"} |-> 220000],
+     path |-> PathOf([t \in {1} |-> <<>>])]
+C06All(u) == { C06Stall(v) : v \in {"icmp4", "udp4", "udp6", "sack"} } \cup C06CsumAll(u) \cup { C06Eager(v, dt) : v \in Variants, dt \in {2, 3, 5} } \cup { C06Full(v, b, r[1], r[2]) : v \in Variants, b \in Bases, r \in {<<1, 255>>, <<200, 255>>, <<1, 30>>} }
           \cup { C06Dest(v, b, dt, dd) : v \in Variants, b \in Bases, dt \in {1, 2, 5, 8}, dd \in {500, 29000, 31000, 95000} }
 
 ---------------------------------------------------------------------------
